@@ -22,6 +22,7 @@ class FakeAioTransport(asyncio.Transport):
         super().__init__()
         self.w, self.idx, self.protocol = world, idx, protocol
         self.is_open = True
+        self.orphan = False
         self.written = []
         self.fail_writes = False
         self.serial = self          # serial_asyncio transports expose .serial
@@ -53,6 +54,14 @@ class AWorld:
         self.attempts, self.plan, self.conns, self.events = [], [], [], []
         self.stopped_at = None
         self.after_stop = []
+        self.dials = []          # futures of dials in flight
+        self.orphans = 0
+
+    def new_conn(self, tr):
+        tr.orphan = self.stopped_at is not None
+        if tr.orphan:
+            self.orphans += 1
+        self.conns.append(tr)
 
     @property
     def now(self):
@@ -85,7 +94,7 @@ def install(world, dev):
             raise serial.SerialException("could not open port")
         proto = factory()
         tr = FakeAioTransport(world, len(world.conns), proto)
-        world.conns.append(tr)
+        world.new_conn(tr)
         loop.call_soon(proto.connection_made, tr)
         if ok == "okerr":
             loop.call_soon(tr.lose, ConnectionResetError("lost right after connecting"))
@@ -102,13 +111,20 @@ def install(world, dev):
         world.attempts.append(world.now)
         world.note(("attempt", world.now))
         ok = world.plan.pop(0) if world.plan else True
+        if ok == "hold":                        # the dial stays in flight until the harness ends it (or it is cancelled)
+            fut = world.loop.create_future()
+            world.dials.append(fut)
+            try:
+                ok = await fut
+            finally:
+                world.dials.remove(fut)
         if ok == "timeout":
             await asyncio.sleep(10 ** 6)        # never completes: wait_for has to give up
         if not ok:
             raise OSError("connection refused")
         proto = factory()
         tr = FakeAioTransport(world, len(world.conns), proto)
-        world.conns.append(tr)
+        world.new_conn(tr)
         proto.connection_made(tr)
         if ok == "okerr":
             world.loop.call_soon(tr.lose, ConnectionResetError("lost right after connecting"))
@@ -155,7 +171,15 @@ class AsyncLink:
         self._drain()
 
     def live(self):
-        return [c for c in self.w.conns if c.is_open]
+        return [c for c in self.w.conns if c.is_open and not c.orphan]
+
+    def release(self, ok):
+        """The dial in flight ends with this outcome (False when no dial is in flight any more, e.g. it was cancelled)."""
+        if not self.w.dials:
+            return False
+        self.w.dials[0].set_result(ok)
+        self._drain()
+        return True
 
     def read_error(self):
         self.live()[-1].lose(ConnectionResetError("connection reset by peer"))
@@ -195,7 +219,7 @@ class AsyncLink:
         lost = [e for e in w.events if e[0] == "lost"]
         probes = sum(1 for c in w.conns for (d, t) in c.written if d == b"0;255;3;0;2;\n")
         return {"now": int(round(w.now / UNIT)), "made": len(made), "lost": len(lost), "lostexc": [1 if e[2] else 0 for e in lost],
-                "attempts": [int(round(t / UNIT)) for t in w.attempts], "nconn": len(w.conns), "live": len(self.live()),
+                "attempts": [int(round(t / UNIT)) for t in w.attempts], "nconn": len([c for c in w.conns if not c.orphan]), "live": len(self.live()), "orphans": w.orphans,
                 "probes": probes, "after_stop": len(w.after_stop), "threads": 0, "quiescent": self.ok}
 
     def shutdown(self):
